@@ -143,11 +143,22 @@ func main() {
 				reply("already")
 				continue
 			}
+			// "acquire-begin K": stop at the K-th interleaving point inside the
+			// acquisition (the hand-placed one before the lock call is the first;
+			// the build inserts one before every fcntl call of the locking
+			// package, whatever the code looks like today).
+			stopAt, seen := 1, 0
+			if len(fields) > 1 {
+				fmt.Sscan(fields[1], &stopAt)
+			}
 			reached, proceed := make(chan struct{}), make(chan struct{})
 			verif.YieldHook = func(site string) {
-				if site == "locking.lock" {
-					close(reached)
-					<-proceed
+				if site == "locking.lock" || strings.HasPrefix(site, "auto:filesystem/locking.") {
+					seen++
+					if seen == stopAt {
+						close(reached)
+						<-proceed
+					}
 				}
 			}
 			result := make(chan lockResult, 1)
